@@ -12,7 +12,9 @@ RULE = ("Coq: Properties/C18.v (partial: fixed-point / idempotence lemmas of the
         "unparsable inputs (token deletions / duplications / swaps, random character insertions, truncations). For each "
         "input x: f1 = format(x) and f2 = format(f1) through the cfg-gated hook op `format` (the function the CLI "
         "calls); f2 must equal f1; `garden format --check` on a file holding f1 must exit 0 and `garden format` on it "
-        "must print f1 (CLI, every input in thorough, a sample in quick). A panic of the formatter is reported too. "
+        "must print f1 (CLI, every input in thorough, a sample in quick). Inputs on which the front end produces no "
+        "output at all (parser panic or hang) are counted and listed in the notes, not reported as C18 violations "
+        "(C01's subject); a crash on the formatter's OWN output is a violation. "
         "A case is non-trivial when format(x) != x.")
 META = {
     "technique": ("property-directed search on the real binary (format twice, --check) over generated parseable and "
@@ -80,27 +82,53 @@ def gen_all(ctx, exe, n_mut):
     return inputs
 
 
+def robust_format(exe, srcs, timeout=40):
+    """hook op `format` on every source, in chunks; a request that kills or stalls the process is reported as
+    {"crashed": ...} and the rest of its chunk is retried."""
+    res = [None] * len(srcs)
+
+    def work(ids):
+        todo = list(ids)
+        while todo:
+            r = oracle.batch(exe, [{"op": "format", "src": srcs[i]} for i in todo], timeout=timeout, shards=1)
+            k = 0
+            while k < len(todo) and not r[k].get("missing") and not r[k].get("bad_response"):
+                res[todo[k]] = r[k]
+                k += 1
+            if k < len(todo):
+                res[todo[k]] = {"crashed": "no answer within %ds (hang) or the process died" % timeout}
+                k += 1
+            todo = todo[k:]
+    ids = list(range(len(srcs)))
+    chunks = [ids[i:i + 40] for i in range(0, len(ids), 40)]
+    with concurrent.futures.ThreadPoolExecutor(common.NCPU) as ex:
+        list(ex.map(work, chunks))
+    return res
+
+
 def fmt2(exe, srcs):
-    """-> [(f1, f2, detail)] ; f1/f2 None when the formatter panicked."""
-    r1 = oracle.batch(exe, [{"op": "format", "src": s} for s in srcs])
+    """-> [(f1, f2, detail)] ; f1/f2 None when the formatter panicked, hung or died."""
+    r1 = robust_format(exe, srcs)
     f1 = [r.get("output") for r in r1]
     idx = [i for i, f in enumerate(f1) if f is not None]
-    r2 = oracle.batch(exe, [{"op": "format", "src": f1[i]} for i in idx])
+    r2 = robust_format(exe, [f1[i] for i in idx])
     f2 = [None] * len(srcs)
     det = [None] * len(srcs)
     for i, r in zip(idx, r2):
         f2[i] = r.get("output")
         if f2[i] is None:
-            det[i] = r.get("panic") or json.dumps(r)[:200]
+            det[i] = r.get("panic") or r.get("crashed") or json.dumps(r)[:200]
     for i, r in enumerate(r1):
         if f1[i] is None:
-            det[i] = r.get("panic") or json.dumps(r)[:200]
+            det[i] = r.get("panic") or r.get("crashed") or json.dumps(r)[:200]
     return list(zip(f1, f2, det))
 
 
 def classify(src, f1, f2, det):
     if f1 is None:
-        return ("format-panics", "the formatter panicked on the input: %s" % det)
+        # no output at all: the front end crashed or hung (in the parser on every case seen so far). That is C01's
+        # subject (the front end never crashes); C18 is about the outputs the formatter does produce.
+        return None
     if f2 is None:
         return ("format-panics-on-own-output", "the formatter panicked on its own output: %s" % det)
     if f1 != f2:
@@ -111,6 +139,10 @@ def classify(src, f1, f2, det):
             kind = "indentation-changes"
         else:
             kind = "spacing-changes"
+        if "\r" in src:
+            # line ends are re-terminated with LF one pass at a time (a bare CR at the end of the file survives the
+            # first pass): same root cause as C17's crlf-input finding
+            return ("crlf-input:not-idempotent", "formatting the output again changes it (input has CR line ends)")
         return ("not-idempotent:" + kind, "formatting the output again changes it")
     return None
 
@@ -152,9 +184,14 @@ def run(ctx):
     srcs = [s for (_, s) in inputs]
     res = fmt2(exe, srcs)
     reported = {}
+    crashed = []
     for (kind, s), (f1, f2, det) in zip(inputs, res):
         ctx.case({"format2": s}, f1 is not None and f1 != s)
         ctx.stat("inputs:" + kind)
+        if f1 is None:
+            ctx.stat("no output: formatter/parser panicked or hung on the input (C01's subject)")
+            if len(crashed) < 5:
+                crashed.append((s, det))
         c = classify(s, f1, f2, det)
         if c is None:
             continue
@@ -162,8 +199,10 @@ def run(ctx):
         cls = "%s:%s" % (c[0], "parseable" if kind != "mutated" else "any-input")
         if cls not in reported or len(reported[cls][0]) > len(s):
             reported[cls] = (s, c)
+    for s, det in crashed:
+        ctx.notes.append("front end crashed/hung on %r: %s" % (s[-80:], str(det)[:120]))
     for cls, (s, c) in sorted(reported.items()):
-        small = shrink(exe, s, c[0])
+        small = shrink(exe, s, c[0], budget=12)
         f1, f2, det = fmt2(exe, [small])[0]
         ctx.violation("C18:" + cls, "%s (input %r)" % (c[1], small[:160]),
                       {"input": small, "observed": {"format_once": f1, "format_twice": f2, "detail": det},
